@@ -10,6 +10,9 @@ impl<T> RefCell<T> {
     pub fn borrow(&self) -> (r: &T) ensures *r == self.v { &self.v }
 }
 pub use std::time::Duration;
+pub assume_specification [std::time::Duration::as_millis] (d: &std::time::Duration) -> u128;
+pub assume_specification [std::time::Duration::as_secs] (d: &std::time::Duration) -> u64;
+pub assume_specification [std::time::Duration::is_zero] (d: &std::time::Duration) -> bool;
 pub struct OsIpcSharedMemoryX { pub ghost mid: int }
 pub struct Receiver<T> { pub ghost chan: int, pub phantom: PhantomData<T> }     // crossbeam_channel::Receiver
 pub struct Sender<T> { pub ghost chan: int, pub phantom: PhantomData<T> }       // crossbeam_channel::Sender
